@@ -105,6 +105,23 @@ def run(res, proof):
             res.violation('line-vs-document', {'text': txt}, '; '.join(r['line_vs_doc'][:3]), 'a line read alone yields the document\'s object')
         if r.get('registry'):
             res.violation('registry-corrupted', {'text': txt}, '; '.join(r['registry'][:3]), 'valid singletons')
+    # ---- correspondence: the Lean reader model (grammar + kernel translation + object world) on the same documents
+    lines, impl = [], []
+    for (mode, S, txt), r, job in zip(metas, results, jobs):
+        if mode == 'after-another-document':
+            continue
+        ign = 'reaction' if mode == 'ignore-reactions' else ''
+        lines.append('reset'); impl.append('ok')
+        lines.append('read.doc\t%s\t%s\t0 0 0 0 0\t0' % (sysgen.PG.hx(txt), ign)); impl.append(r.get('line', '?'))
+        lines.append('names'); impl.append('names ' + '|' * 19)
+    try:
+        model = [reader.canon_model_line(l) for l in core.run_driver(lines)]
+        core.compare_streams(res, 'reader.documents', lines, impl, model)
+        for d in res.disagreements:
+            if isinstance(d['input'], str) and d['input'].startswith('read.doc'):
+                d['text'] = bytes.fromhex(d['input'].split('\t')[1]).decode('utf-16-be', 'replace')
+    except core.DriverBroken as e:
+        proof.problem('driver', str(e))
     for (mode, S, txt) in metas[::max(1, len(metas) // 6)]:
         res.sample({'mode': mode, 'text': txt})
     res.rule = ('%d generated consistent systems (2-6 domains with lengths / short / long / IUPAC sequences, starred declarations, 0-3 '
